@@ -378,7 +378,7 @@ static void do_unary(const Unary& u, u16 x)
                       {"--one", u.name, hexs(x)});
     }
     if (g_verbose) std::printf("%s(%s) = %s ref %s %s\n", u.name, hx(x).c_str(), hx(r).c_str(), hx(o.a).c_str(), k.empty() ? "ok" : k.c_str());
-    if (nontriv && (x % 9973) == 4242 % 9973)
+    if (nontriv && (x == 0x3787 || x == 0xc0ff) && (!std::strcmp(u.name, "exp") || !std::strcmp(u.name, "tgamma") || !std::strcmp(u.name, "sincos.cos")))
         vf::sample(std::string(u.name) + "(" + hx(x) + ") = " + hx(r) + " ; MPFR " + hx(o.a), 2);
 }
 
@@ -488,7 +488,7 @@ static void do_floatlike(int fi, u16 x)
     }
     g_sh->phase = 0;
     if (nontriv) cnt(C_NONTRIV);
-    if (nontriv && x == 0x4248) vf::sample(std::string(fn) + "(" + hx(x) + ") agrees with " + fn + "f", 1);
+    if (nontriv && x == 0x4248 && (fi == 3 || fi == 8 || fi == 10 || fi == 11)) vf::sample(std::string(fn) + "(" + hx(x) + ") agrees with " + fn + "f", 1);
 }
 
 // ldexp / scalbn / scalbln: all halves x exponents [-60,60] u {INT_MIN, INT_MAX}
@@ -522,7 +522,7 @@ static void do_scale(int which, u16 x, int e)
                       {"--one", sc_names[which], hexs(x), vf::str(e)});
     }
     if (g_verbose) std::printf("%s(%s,%d) = %s ref %s\n", sc_names[which], hx(x).c_str(), e, hx(bits(r)).c_str(), hx(eb).c_str());
-    if (x == 0x3555 && e == -17) vf::sample(std::string(sc_names[which]) + "(" + hx(x) + ", -17) = " + hx(bits(r)) + " ; ldexpf " + hx(eb), 3);
+    if (x == 0x3555 && e == -17 && which == 0) vf::sample(std::string(sc_names[which]) + "(" + hx(x) + ", -17) = " + hx(bits(r)) + " ; ldexpf " + hx(eb), 3);
 }
 
 // ------------------------------------------------------------------------------------------------
@@ -731,7 +731,7 @@ static void do_binary(int k, u16 x, u16 y, int mode)
     if (g_verbose)
         std::printf("%s(%s, %s) = %s ref %s%s %s\n", bnames[k], hx(x).c_str(), hx(y).c_str(), hx(r).c_str(), hx(a).c_str(),
                     k == B_REMQUO ? (" quo=" + vf::str(quo)).c_str() : "", kind.empty() ? "ok" : kind.c_str());
-    if (nontriv && x == 0x4248 && (y & 0xfff) == 0x5a3)
+    if (nontriv && g_level == 0 && x == 0x4155 && ((y == 0x3955 && (k == B_POW || k == B_ATAN2 || k == B_HYPOT)) || (y == 0x3AAA && k == B_REMQUO)))
         vf::sample(std::string(bnames[k]) + "(" + hx(x) + ", " + hx(y) + ") = " + hx(r) + " ; reference " + hx(a), 2);
 }
 
